@@ -35,7 +35,7 @@ func runC18(t *testing.T, seed uint64, tier string) (*Scenario, *Result) {
 		wallet = "0x71C7656EC7ab88b098defB751B7401B5f6d8976F"
 	}
 	joined := r.Bool(0.9)
-	behaviour := []string{"honest", "honest", "dup", "unknown", "replay_after", "restart", "second_run"}[r.Intn(7)]
+	behaviour := []string{"honest", "fast", "dup", "unknown", "replay_after", "restart", "second_run"}[r.Intn(7)]
 	dupRound := 1 + r.Intn(50)
 	sc.Steps = []Step{{Conn: 0, Op: "signed_latency", N: n, Name: wallet, Variant: behaviour}}
 	valid := joined && n >= 3 && n <= 50 && wallet != ""
@@ -87,6 +87,9 @@ func runC18(t *testing.T, seed uint64, tier string) (*Scenario, *Result) {
 				pg := &ping{id: x.RequestId, at: w.sim.Now()}
 				pings = append(pings, pg)
 				d := time.Duration(count*stepMS) * time.Millisecond
+				if behaviour == "fast" {
+					d = 0 // a client on the same rack: many rounds per millisecond
+				}
 				if behaviour == "restart" && !restarted && count == 1+dupRound%3 && valid {
 					// do not answer; ask again instead
 					restarted = true
